@@ -35,12 +35,13 @@ Render(es, corr) ==
                         ELSE IF corr.c = "nosep" /\ corr.at = i THEN <<>>                       \* missing separator
                         ELSE IF corr.c = "dbl" /\ corr.at = i THEN <<44, 44>>                   \* doubled comma
                         ELSE <<44>>
-    IN Join([i \in 1..Len(es) |-> sepBefore(i) \o txt(i)], <<>>)
+    IN Join([i \in 1..Len(es) |-> sepBefore(i) \o txt(i)], <<>>) \o (IF corr.c = "trail" THEN <<44>> ELSE <<>>)   \* trail: list ends in a comma
 
 (* how many entries are yielded before the error surfaces: a range [lo, hi] (0,0 with none = no error) *)
 ErrWindow(es, corr) ==
     CASE corr.c = "none"    -> [err |-> FALSE, lo |-> Len(es), hi |-> Len(es)]
       [] corr.c = "lead"    -> [err |-> TRUE, lo |-> 0, hi |-> 0]
+      [] corr.c = "trail"   -> [err |-> TRUE, lo |-> Len(es), hi |-> Len(es)]          \* every entry first; then an error OR the end (not named by C19: `either')
       [] corr.c \in {"nosep", "dbl", "foreign", "dimmix"} -> [err |-> TRUE, lo |-> corr.at - 1, hi |-> corr.at - 1]
       [] corr.c = "third"   -> [err |-> TRUE, lo |-> corr.at - 1, hi |-> corr.at]      \* the a:b part may or may not be yielded first
       [] corr.c = "wsafter" -> [err |-> TRUE, lo |-> corr.at - 1, hi |-> corr.at]      \* the entry before the blank may be yielded first
@@ -49,6 +50,7 @@ ErrWindow(es, corr) ==
 Applicable(es, corr, channel) ==
     CASE corr.c = "none"  -> TRUE
       [] corr.c = "lead"  -> TRUE
+      [] corr.c = "trail" -> TRUE
       [] corr.c = "dbl"   -> corr.at \in 2..Len(es)
       [] corr.c = "foreign" -> corr.at \in 1..Len(es)
       [] corr.c = "wsafter" -> corr.at \in 1..Len(es)
